@@ -204,7 +204,7 @@ func init() {
 			"distinct_nontrivial counts distinct (stations, elevator alerts, groups per policy, other alerts, configuration) signatures of feeds with at least one group of two or more members or one Mercury selector",
 		Cases: func(tier string) int {
 			if tier == "thorough" {
-				return 40000
+				return 120000
 			}
 			return 5000
 		},
